@@ -4,7 +4,7 @@ import concurrent.futures as cf
 import os, shutil
 import vlib
 
-CFG = """CONSTANTS Subs = {%s} MaxVer = %d
+CFG = """CONSTANTS Subs = {%s} MaxVer = %d Start = 0 Backlog = FALSE
 SPECIFICATION Spec
 INVARIANTS OneCall CallNewest
 PROPERTIES RelayIncreasing RefusedStopKeeps
@@ -37,6 +37,34 @@ def run(prop, tier, seed, scratch, t0):
         gres = list(ex.map(shard, range(shards)))
     os.remove(dot)
     dr += gres
+    # the same graph for watching that starts with a later transaction (Start = 1): nothing is registered yet then either
+    r1 = vlib.tlc(scratch, "Watcher", (CFG % graph_cfg).replace("Start = 0", "Start = 1"), name="Watcher_graph1", workers=1,
+                  extra=["-dump", "dot,actionlabels", "graph.dot"], timeout=3000)
+    if not r1["ok"]:
+        raise vlib.Inconclusive("TLC reports %s in Watcher.tla itself (Start = 1)" % r1["violated"])
+    dot1 = os.path.join(r1["dir"], "graph.dot")
+    r1["out"] = ""
+    tl.append(r1)
+    with cf.ThreadPoolExecutor(max_workers=shards) as ex:
+        g1 = list(ex.map(lambda k: vlib.run_driver(binary, "TestWatcher", dict(VERIF_DOT=dot1, VERIF_SHARD=k, VERIF_SHARDS=shards, VERIF_SEED=seed,
+                                                                              VERIF_START_VER=1), scratch, "wgraph1_%d" % k, timeout=6000), range(shards)))
+    os.remove(dot1)
+    for d in g1:
+        d["counts"].pop("graph_states", None)
+        d["counts"].pop("graph_edges", None)
+    dr += g1
+    # backlog: only progressed / concluded events, the client reads at the end
+    bdir = os.path.join(scratch, "wbacklog")
+    os.makedirs(os.path.join(bdir, "b"))
+    bcfg = (CFG % ('"S1"', 2)).replace("Backlog = FALSE", "Backlog = TRUE").replace("PROPERTIES RelayIncreasing RefusedStopKeeps\n", "")
+    rb = vlib.tlc(scratch, "Watcher", bcfg, name="Watcher_backlog", workers=1,
+                  simulate="file=%s/b/t,num=%d" % (bdir, 60 if tier == "quick" else 600), extra=["-depth", "40", "-seed", str(seed)], timeout=3000)
+    rb["out"] = ""
+    tl.append(rb)
+    db = vlib.run_driver(binary, "TestWatcher", dict(VERIF_SIM_DIR=os.path.join(bdir, "b"), VERIF_SEED=seed, VERIF_LAZY=1), scratch, "wbacklog", timeout=6000)
+    db["counts"]["backlog_behaviours"] = db["counts"].get("behaviours", 0)
+    dr.append(db)
+    shutil.rmtree(bdir)
     # simulated behaviours with two sub-channels
     for i, (subs, mv, num, depth) in enumerate(sim_cfgs):
         simdir = os.path.join(scratch, "wsim%d" % i)
